@@ -13,7 +13,7 @@ from lib.coqterm import cbool, cN, clist, cnat, copt
 
 ID = "C40"
 QUICK_N = 2000
-THOROUGH_N = 40000
+THOROUGH_N = 30000
 SHARD = 300
 RULE = ("flow type uniform over 9 kinds (http with/without response, with error, with websocket, tcp, udp, dns "
         "with/without response, http built by from_state); history of 1..12 operations over a store of <= 4 flows: "
